@@ -79,10 +79,18 @@ def gen_table(rng):
         else:
             tid_mode = "valid"
     # lineage ids: arbitrary (non-canonical) but valid - one id per connected component
-    lid_mode = rng.choice(["none", "none", "valid"])
+    lid_mode = rng.choice(["none", "none", "valid", "invalid"])
     comps = sorted(O.component_partition(ids, forest.edges), key=min)
     lids = rng.sample(range(5, 3 * len(comps) + 40), len(comps))
     lid_of = {n: lids[i] for i, c in enumerate(comps) for n in c}
+    if lid_mode == "invalid":
+        if len(comps) >= 2:
+            # two unconnected components share a lineage id
+            a_, b_ = rng.sample(range(len(comps)), 2)
+            for n in comps[b_]:
+                lid_of[n] = lids[a_]
+        else:
+            lid_mode = "valid"
     for n in ids:
         row = {names["time"]: forest.times[n], names["id"]: ext[n]}
         p = parent.get(n)
@@ -285,6 +293,25 @@ def compare(case, tracks, src):
             if v != r[c]:
                 probs.append(("custom", f"node {n}: {c} = {v!r} != {r[c]!r}",
                               f"C12/{src}/custom/{c}"))
+                break
+    if not probs:
+        # whatever id columns were supplied (valid ones are kept, invalid ones replaced), the
+        # imported solution's ids label the segments / components
+        from .. import checks as _checks
+
+        for fn, what in ((_checks.track_partition, "track"), (_checks.lineage_partition,
+                                                               "lineage")):
+            if what == "track" and case["tid_mode"] == "invalid":
+                # a supplied labelling that is not the maximal-segment one (a segment split
+                # over two ids, say) is still a set of linear tracklets: the importer keeps
+                # it as mapped, and C04 does not speak about supplied ids
+                continue
+            bad = fn(tracks)
+            if bad:
+                probs.append((f"{what}-ids-after-import", f"tid column {case['tid_mode']}, "
+                              f"lineage column {case.get('lid_mode')}: {bad[0][1][:300]}",
+                              f"C12/{src}/{what}-ids-invalid-after-import/"
+                              f"tid={case['tid_mode']}/lid={case.get('lid_mode')}"))
                 break
     if case.get("lid_mode") == "valid" and not probs:
         for n in g.nodes:
